@@ -11,6 +11,8 @@ import (
 	"sort"
 	"strconv"
 	"strings"
+	"sync"
+	"sync/atomic"
 	"time"
 
 	"golang.org/x/tools/go/packages"
@@ -58,6 +60,7 @@ type result struct {
 	Deadlocks    int               `json:"deadlocks"`
 	Switches     int               `json:"thread_switches"`
 	Solver       string            `json:"solver"`
+	Prefixes     int               `json:"prefixes_emitted"`
 	ForkStats    map[string]int    `json:"fork_stats"`
 	CollisionOnly int              `json:"counterexamples_needing_checksum_collision"`
 }
@@ -73,7 +76,9 @@ func main() {
 	smtlog := flag.String("smtlog", "", "")
 	out := flag.String("out", "", "result JSON file")
 	shard := flag.String("shard", "0/1", "i/N")
-	shardDepth := flag.Int("sharddepth", 4, "")
+	_ = flag.Int("sharddepth", 4, "(obsolete)")
+	prefixDepth := flag.Int("prefixdepth", 0, "phase 1: explore paths with fewer fork decisions, write the prefixes at this fork depth to -prefixout")
+	workers := flag.Int("workers", 1, "number of worker goroutines (each with its own machine and solver) exploring the prefixes emitted at -prefixdepth")
 	solverBin := flag.String("solver", "z3", "")
 	crossN := flag.Int("crossval", 3, "number of passing paths to export for native cross-validation")
 	seed := flag.Int64("seed", 1, "")
@@ -129,104 +134,170 @@ func main() {
 	if *smtlog != "" {
 		logw, _ = os.Create(*smtlog)
 	}
-	m := &Machine{prog: prog, maxSteps: *maxSteps, fnCount: map[string]int{}, fnCalls: map[*ssa.Function]int{}, reached: map[string]int{}, trace_: *trace,
-		params: params, extCache: map[*ssa.Function]externalFn{}, extMiss: map[*ssa.Function]bool{}, asserts: map[string]int{}, stubsUsed: map[string]int{},
-		exitAck: make(chan struct{})}
-	fmt.Sscanf(*shard, "%d/%d", &m.shardIdx, &m.shardN)
-	m.shardDepth = *shardDepth
-	if logw != nil {
-		m.solver = NewSolver(*solverBin, logw)
-	} else {
-		m.solver = NewSolver(*solverBin, nil)
+	newMachine := func(withLog bool) *Machine {
+		m := &Machine{prog: prog, maxSteps: *maxSteps, fnCount: map[string]int{}, fnCalls: map[*ssa.Function]int{}, reached: map[string]int{}, trace_: *trace,
+			params: params, extCache: map[*ssa.Function]externalFn{}, extMiss: map[*ssa.Function]bool{}, asserts: map[string]int{}, stubsUsed: map[string]int{},
+			exitAck: make(chan struct{})}
+		if withLog && logw != nil {
+			m.solver = NewSolver(*solverBin, logw)
+		} else {
+			m.solver = NewSolver(*solverBin, nil)
+		}
+		return m
 	}
-
-	res := &result{Harness: *pkgPat + "." + *fnName, Params: params, Shard: *shard, Aborted: map[string]int{}, Panics: map[string]int{}, Solver: *solverBin, LoadS: loadS}
-	seenViol := map[string]bool{}
+	newResult := func() *result {
+		return &result{Harness: *pkgPat + "." + *fnName, Params: params, Shard: *shard, Aborted: map[string]int{}, Panics: map[string]int{}, Solver: *solverBin, LoadS: loadS}
+	}
 	tExp := time.Now()
-	complete := false
-	rng := uint64(*seed)*2654435761 + 12345
-	for m.paths < *maxPaths && time.Since(tExp) < *timeout {
-		done := m.runPath(hp, fn, res)
-		if done {
-			res.PathsDone++
-			// sample passing paths for evidence and native cross-validation
-			rng = rng*6364136223846793005 + 1442695040888963407
-			want := len(res.CrossVal) < *crossN && (res.PathsDone <= 1 || (rng>>33)%7 == 0)
-			if want && len(m.violations) == 0 {
-				if s, ok := m.samplePath(); ok {
-					res.CrossVal = append(res.CrossVal, s)
+	deadline := tExp.Add(*timeout)
+	var stopAll int32
+
+	// explore runs the depth-first search below the given prefix (nil: the whole tree) on machine m.
+	explore := func(m *Machine, res *result, prefix []savedDecision, seenViol map[string]bool, rng *uint64) bool {
+		m.stack = nil
+		for _, d := range prefix {
+			m.stack = append(m.stack, decision{what: d.What, n: d.N, chosen: d.Chosen, vals: d.Vals, forked: d.Forked, free: d.Free})
+		}
+		m.minDepth = len(prefix)
+		for {
+			if m.paths >= *maxPaths || time.Now().After(deadline) || atomic.LoadInt32(&stopAll) != 0 {
+				return false
+			}
+			done := m.runPath(hp, fn, res)
+			if done {
+				res.PathsDone++
+				*rng = *rng*6364136223846793005 + 1442695040888963407
+				want := len(res.CrossVal) < *crossN && (res.PathsDone <= 1 || (*rng>>33)%7 == 0)
+				if want && len(m.violations) == 0 {
+					if s, ok := m.samplePath(); ok {
+						res.CrossVal = append(res.CrossVal, s)
+					}
 				}
 			}
-		}
-		if len(m.trace) > m.maxDepth {
-			m.maxDepth = len(m.trace)
-		}
-		if m.paths%500 == 0 {
-			fmt.Fprintf(os.Stderr, "... %s paths=%d queries=%d depth=%d viol=%d\n", *fnName, m.paths, m.solver.Queries, len(m.trace), len(res.Violations))
-		}
-		stop := false
-		for _, v := range m.violations {
-			k := v.ID + "|" + v.Known
-			if !seenViol[k] || len(res.Violations) < 20 {
+			if len(m.trace) > m.maxDepth {
+				m.maxDepth = len(m.trace)
+			}
+			if m.paths%500 == 0 {
+				fmt.Fprintf(os.Stderr, "... %s paths=%d queries=%d depth=%d viol=%d\n", *fnName, m.paths, m.solver.Queries, len(m.trace), len(res.Violations))
+			}
+			for _, v := range m.violations {
+				k := v.ID + "|" + v.Known
 				if !seenViol[k] {
 					seenViol[k] = true
 					res.Violations = append(res.Violations, v)
 				}
+				if v.Known == "" && *stopFirst {
+					atomic.StoreInt32(&stopAll, 1)
+				}
 			}
-			if v.Known == "" && *stopFirst {
-				stop = true
+			// backtrack (never above the assigned prefix)
+			st := m.trace
+			for len(st) > m.minDepth && len(st[len(st)-1].pending) == 0 {
+				st = st[:len(st)-1]
+			}
+			if len(st) <= m.minDepth {
+				return true
+			}
+			top := &st[len(st)-1]
+			top.chosen = top.pending[0]
+			top.pending = top.pending[1:]
+			m.stack = append([]decision(nil), st...)
+		}
+	}
+
+	finish := func(m *Machine, res *result) {
+		res.Paths = m.paths
+		res.Skipped = m.skipped
+		res.Transitions = m.transitions
+		res.MaxDepth = m.maxDepth
+		res.Queries, res.Sat, res.Unsat, res.Unknown = m.solver.Queries, m.solver.Sat, m.solver.Unsat, m.solver.Unknown
+		res.SolverS = m.solver.Time.Seconds()
+		res.Reached = m.reached
+		res.Asserts = m.asserts
+		res.AssertsTotal = m.assertsChecked
+		res.Functions = map[string]int{}
+		for f, n := range m.fnCalls {
+			name := f.String()
+			if strings.Contains(name, "raft-wal") {
+				res.Functions[name] += n
 			}
 		}
-		if stop {
-			break
+		res.Stubs = m.stubsUsed
+		res.ForkStats = m.forkStats
+		res.CollisionOnly = m.collisionOnly
+		res.Deadlocks = m.deadlocks
+		res.Switches = m.switches
+		res.Inconclusive = append(res.Inconclusive, m.incon...)
+		m.solver.Close()
+	}
+
+	// phase 1 (or the whole search when -workers <= 1): machine 0
+	m0 := newMachine(true)
+	res := newResult()
+	rng0 := uint64(*seed)*2654435761 + 12345
+	nWorkers := *workers
+	if nWorkers > 1 && *prefixDepth > 0 {
+		m0.prefixDepth = *prefixDepth
+	}
+	complete := explore(m0, res, nil, map[string]bool{}, &rng0)
+	prefixes := m0.prefixes
+	m0.prefixDepth = 0
+	finish(m0, res)
+	res.Prefixes = len(prefixes)
+	if len(prefixes) > 0 && complete {
+		// phase 2: workers take prefixes from a shared queue (load balancing for free)
+		queue := make(chan []savedDecision, len(prefixes))
+		for _, pf := range prefixes {
+			queue <- pf
 		}
-		// backtrack
-		st := m.trace
-		for len(st) > 0 && len(st[len(st)-1].pending) == 0 {
-			st = st[:len(st)-1]
+		close(queue)
+		if nWorkers > len(prefixes) {
+			nWorkers = len(prefixes)
 		}
-		if len(st) == 0 {
-			complete = true
-			break
+		results := make([]*result, nWorkers)
+		oks := make([]bool, nWorkers)
+		var wg sync.WaitGroup
+		for w := 0; w < nWorkers; w++ {
+			wg.Add(1)
+			go func(w int) {
+				defer wg.Done()
+				m := newMachine(false)
+				r := newResult()
+				seen := map[string]bool{}
+				rng := uint64(*seed)*2654435761 + 12345 + uint64(w)*977
+				ok := true
+				for pf := range queue {
+					if !explore(m, r, pf, seen, &rng) {
+						ok = false
+						break
+					}
+				}
+				finish(m, r)
+				results[w], oks[w] = r, ok
+			}(w)
 		}
-		top := &st[len(st)-1]
-		top.chosen = top.pending[0]
-		top.pending = top.pending[1:]
-		m.stack = append([]decision(nil), st...)
+		wg.Wait()
+		for w, r := range results {
+			complete = complete && oks[w]
+			mergeResult(res, r)
+		}
 	}
 	res.Complete = complete
-	res.Paths = m.paths
-	res.Skipped = m.skipped
-	res.Transitions = m.transitions
-	res.MaxDepth = m.maxDepth
-	res.Queries, res.Sat, res.Unsat, res.Unknown = m.solver.Queries, m.solver.Sat, m.solver.Unsat, m.solver.Unknown
-	res.SolverS = m.solver.Time.Seconds()
 	res.WallS = time.Since(tExp).Seconds()
-	res.Reached = m.reached
-	res.Asserts = m.asserts
-	res.AssertsTotal = m.assertsChecked
-	res.Functions = map[string]int{}
-	for f, n := range m.fnCalls {
-		name := f.String()
-		if strings.Contains(name, "raft-wal") {
-			res.Functions[name] += n
-		}
-	}
-	res.Stubs = m.stubsUsed
-	res.ForkStats = m.forkStats
-	res.CollisionOnly = m.collisionOnly
-	res.Deadlocks = m.deadlocks
-	res.Switches = m.switches
 	// dedupe inconclusive
 	seenI := map[string]bool{}
-	for _, s := range m.incon {
+	var inc []string
+	for _, s := range res.Inconclusive {
 		if !seenI[s] {
 			seenI[s] = true
-			res.Inconclusive = append(res.Inconclusive, s)
+			inc = append(inc, s)
 		}
 	}
-	sort.Strings(res.Inconclusive)
-	m.solver.Close()
+	sort.Strings(inc)
+	res.Inconclusive = inc
+	if len(res.CrossVal) > *crossN {
+		res.CrossVal = res.CrossVal[:*crossN]
+	}
 
 	b, _ := json.MarshalIndent(res, "", " ")
 	if *out != "" {
@@ -294,7 +365,6 @@ func (m *Machine) runPath(hp *ssa.Package, fn *ssa.Function, res *result) (compl
 	m.solver.PopAll()
 	if m.paths%128 == 0 {
 		m.solver.Reset()
-		resetTerms()
 	}
 	m.solver.Push()
 	m.globals = make(map[*ssa.Global]*value, m.nGlobals+8)
@@ -351,4 +421,50 @@ func panicMsg(r targetPanic) string {
 		return "goexit"
 	}
 	return fmt.Sprint(r.v)
+}
+
+// mergeResult adds a worker's result into the run's result.
+func mergeResult(dst, src *result) {
+	dst.Paths += src.Paths
+	dst.PathsDone += src.PathsDone
+	dst.Transitions += src.Transitions
+	if src.MaxDepth > dst.MaxDepth {
+		dst.MaxDepth = src.MaxDepth
+	}
+	dst.Queries += src.Queries
+	dst.Sat += src.Sat
+	dst.Unsat += src.Unsat
+	dst.Unknown += src.Unknown
+	dst.SolverS += src.SolverS
+	dst.AssertsTotal += src.AssertsTotal
+	dst.CollisionOnly += src.CollisionOnly
+	dst.Deadlocks += src.Deadlocks
+	dst.Switches += src.Switches
+	addMap := func(d *map[string]int, s map[string]int) {
+		if *d == nil {
+			*d = map[string]int{}
+		}
+		for k, v := range s {
+			(*d)[k] += v
+		}
+	}
+	addMap(&dst.Reached, src.Reached)
+	addMap(&dst.Asserts, src.Asserts)
+	addMap(&dst.Functions, src.Functions)
+	addMap(&dst.Stubs, src.Stubs)
+	addMap(&dst.Aborted, src.Aborted)
+	addMap(&dst.Panics, src.Panics)
+	addMap(&dst.ForkStats, src.ForkStats)
+	seen := map[string]bool{}
+	for _, v := range dst.Violations {
+		seen[v.ID+"|"+v.Known] = true
+	}
+	for _, v := range src.Violations {
+		if !seen[v.ID+"|"+v.Known] {
+			seen[v.ID+"|"+v.Known] = true
+			dst.Violations = append(dst.Violations, v)
+		}
+	}
+	dst.Inconclusive = append(dst.Inconclusive, src.Inconclusive...)
+	dst.CrossVal = append(dst.CrossVal, src.CrossVal...)
 }
